@@ -62,6 +62,20 @@ public:
         _dim      = dim;
     }
 
+    /// Raises io_error unless the region [_top_left, _top_left + _dim) lies inside an image of the given
+    /// size. The readers index their row buffers with it; called by every reader backend once the header
+    /// has been read and a zero _dim has been replaced by the image's dimensions.
+    void check_region( std::ptrdiff_t width
+                     , std::ptrdiff_t height
+                     ) const
+    {
+        io_error_if(  _top_left.x < 0 || _top_left.y < 0 || _dim.x < 0 || _dim.y < 0
+                   || _top_left.x > width  || _dim.x > width  - _top_left.x
+                   || _top_left.y > height || _dim.y > height - _top_left.y
+                   , "The region to read lies outside the image."
+                   );
+    }
+
 public:
 
     point_t _top_left;
